@@ -1,5 +1,7 @@
 """C11 - every diagnostic names the right place: position arithmetic and error envelopes (DESIGN 4/C11)."""
 from vklib import Builder
+import vmctl
+import slicer
 
 TEXT = """
     /// n symbolic characters over {x, CR, LF}; returns the selector array too
@@ -172,9 +174,17 @@ def spec(tier, seed):
         """, unwind=2, exhaustive=True, cost=5, bounds="every row and column (full u32 width)",
           functions=["rusty_common::Positioned::map", "rusty_common::Positioned::try_map", "rusty_common::AtPos::at_pos", "rusty_common::AtPos::at",
                      "rusty_common::AtPos::at_rc", "rusty_common::HasPos::pos"])
+    # the call-site stack through one VM step from an arbitrary state (PushStack / PopStack / a failing statement / PushRet / PopRet)
+    notes = []
+    try:
+        vmctl.add(b, "vk_c11", [("calls0", 2), ("calls1", 1), ("calls1", 3), ("calls2", 2)])
+    except slicer.SliceError as e:
+        notes.append("the control arms of interpret_one could not be sliced from the current tree (%s): vk_c11_vm_step_* missing from this run" % e)
     return b.build(
         tier,
+        notes=notes,
+        stubs=[vmctl.STUB_NOTE],
         bounds="texts of 1..5 characters over {x, CR, LF} (quick) / ..7 (thorough); reader positions on texts of 0..3 / ..5; call stacks of 0..3 / ..4",
         outside="that positions survive parser -> linter -> generator (with_pos, Positioned rebuilding, instruction positions)",
-        assumptions=["the VM keeps its call-site stack innermost first (PushStack inserts at index 0)"],
+        assumptions=["PopStack / PopRet are executed only after their PushStack / PushRet (the generated call protocol)"],
     )
